@@ -491,8 +491,10 @@ impl Property for C05 {
                             };
                             out.checks += 1;
                             let diffs = compare(&expected, &content(&obs4), true, &value_text);
+                            // reported under the facet of the difference (so that the listed finding about the alignment of
+                            // range-compressed selectors, facet offset.mode signature ranged|*, is recognised here too)
                             for (facet, sig, detail) in diffs {
-                                out.fail("grow", format!("{}|{}|{}", facet, sig, done.join("+")), format!("after {:?} on the store loaded from stand-off files, save() and reload: {}", case.grow, detail));
+                                out.fail(&facet, format!("{}|grow:{}", sig, done.join("+")), format!("[grow] after {:?} on the store loaded from stand-off files, save() and reload: {}", case.grow, detail));
                             }
                         }
                         (Ok(Ok(_)), Ok(Ok(_))) => out.label("grow.nothing_applied"),
